@@ -327,6 +327,46 @@ def correspond(ctx):
                 continue
             pk.append(("jweunw\t%s\t-\t%s" % (o, G.dumps(k)), "unwrap", "ECDH-ES+A128KW", k, "A" if py_ec_valid(k) else "R", "EC %s: %s [ECDH-ES unwrap with this private key]" % (crv, tag)))
 
+    # ECDH-ES DIRECT agreement (no wrapped key whose integrity check would hide a wrong derivation): unwrapping (a) with
+    # every private-key variant and (b) with the true private key after the token's epk was replaced by the public form of
+    # every variant -- invalid material on either side must make jose_jwe_dec_jwk fail (python judgement; implementation only)
+    dreq, dmeta = [], []
+    for crv in pyec.CURVES:
+        if crv == "secp256k1":
+            continue
+        dreq.append("jweenc\t%s\t-\t%s\t%s" % (G.dumps({"protected": {"enc": "A128GCM"}, "unprotected": {"alg": "ECDH-ES"}}), G.dumps(G.pub_of([v for c_, v in unw_meta if c_ == crv][0][0][1])), b"c10".hex()))
+        dmeta.append(crv)
+    extra, emeta = [], []
+    for r, o, crv in zip(dreq, G.harness(bdir, dreq), dmeta):
+        if o == "ERR" or o.startswith("CRASH"):
+            rep.violation("enc-failed:ECDH-ES-direct:" + crv, "jose_jwe_enc (direct agreement) to a valid EC public key failed: " + o[:200], {"case": r})
+            continue
+        variants = [v for c_, v in unw_meta if c_ == crv][0]
+        true_prv = variants[0][1]
+        tok = json.loads(o)
+        for tag, k in variants:
+            if not (py_ec_valid(k) and py_ec_point(k) != py_ec_point(true_prv)):
+                extra.append("jweunw\t%s\t-\t%s" % (o, G.dumps(k)))
+                emeta.append(("A" if py_ec_valid(k) else "R", "EC %s: %s [ECDH-ES direct: unwrap with this private key]" % (crv, tag)))
+            pubk = G.pub_of(k)
+            if not isinstance(pubk, dict) or "d" in pubk:
+                continue
+            t2 = json.loads(o)
+            hdr = t2.get("unprotected") if "epk" in (t2.get("unprotected") or {}) else t2.setdefault("header", {})
+            hdr["epk"] = {m: v for m, v in pubk.items() if m in ("kty", "crv", "x", "y")}
+            extra.append("jweunw\t%s\t-\t%s" % (G.dumps(t2), G.dumps(true_prv)))
+            emeta.append(("A" if py_ec_valid(pubk) else "R", "EC %s: %s [ECDH-ES direct: epk replaced by this public key]" % (crv, tag)))
+    for c_, o, (want, what) in zip(extra, G.harness(bdir, extra), emeta):
+        got = "CRASH" if o.startswith("CRASH") else ("R" if o == "ERR" else "A")
+        dist["public-key: " + what.split("[")[-1].rstrip("]")] += 1
+        if got == "CRASH":
+            rep.violation("crash:pk:jweunw", "crash or sanitizer report on invalid key material (%s): %s" % (what, o[:300]), {"case": c_[:3000]})
+        elif got != want and want == "R":
+            rep.violation("invalid-key-accepted:ECDH-ES:%s" % what.split("[")[-1].rstrip("]"), "%s: a content key is derived from invalid key material" % what, {"case": c_[:3000], "implementation": o[:200]})
+        elif got != want:
+            rep.violation("valid-key-refused:ECDH-ES:%s" % what.split("[")[-1].rstrip("]"), "%s: valid material is refused" % what, {"case": c_[:3000], "implementation": o[:200]})
+    st["evaluations"] += len(extra)
+
     pcases = [p[0] for p in pk]
     impl = G.harness(bdir, pcases)
 
